@@ -62,8 +62,9 @@ impl<T> VxCollect for Vec<T> {
     type Item = T;
     open spec fn vx_is_empty(self) -> bool { self@.len() == 0 }
     open spec fn vx_pushed(self, before: Self, item: T) -> bool { self@ == before@.push(item) }
-    fn vx_new() -> (r: Self) { Vec::new() }
-    fn vx_push(&mut self, item: T) { self.push(item); }
+    // (the explicit instantiations keep the impl's definitions in the solver's context whatever else the file contains)
+    fn vx_new() -> (r: Self) { let v: Vec<T> = Vec::new(); proof { assert(<Vec<T> as VxCollect>::vx_is_empty(v)); } v }
+    fn vx_push(&mut self, item: T) { let ghost before = *self; self.push(item); proof { assert(<Vec<T> as VxCollect>::vx_pushed(*self, before, item)); } }
 }
 /// `impl FromIterator<Result<T, E>> for Result<Vec<T>, E>`: the items in order while they are `Ok`, else the first error
 impl<T, E> VxCollect for Result<Vec<T>, E> {
